@@ -66,6 +66,14 @@ Raise == [op |-> "raise"]
 Mul(a, b) == Prim("mul", <<a, b>>)
 Add(a, b) == Prim("add", <<a, b>>)
 
+\* a thinner depth-3 family for the quick tier: own variable absent or squared, inner point own or constant, products only
+NestFamilyQ(depth, inputs) ==
+  {NestProgram(depth, m, c, x, FALSE) :
+     m \in [1..depth -> Modes], c \in {cc \in [1..depth -> UNION {LevelChoices(k, depth) : k \in 1..depth}] :
+                                          \A k \in 1..depth : /\ cc[k] \in LevelChoices(k, depth)
+                                                                /\ cc[k].eo # 1 /\ cc[k].at # "sum"
+                                                                /\ (k < depth => cc[k].comb = "mul")}, x \in inputs}
+
 \* ---------------------------------------------------------------- fault family (C19, C08 after failures, C06)
 \* A differentiation fails inside (a) a function that is itself being differentiated and catches the failure, or
 \* (b) a top-level try; afterwards canary differentiations (nested, closing over the enclosing variable) run in the
